@@ -78,6 +78,9 @@ pub enum Step {
     Net { ins: [NIn; 3], bools: [NIn; 2], clock: Option<i64>, limit: i64, none_value: f32 },
     Device { spec: DevSpec, linked: Vec<bool>, rounds: Vec<Vec<DFeed>> },
     DatumOps { t1: i64, t2: i64, a: f32, b: f32 },
+    /// raw (base, exponent) pairs through the exponent stream: zero / negative / unit bases, zero / negative / integral /
+    /// huge exponents - the power function's special cases, where a replacement library or a shortcut may differ grossly
+    Pow { pairs: Vec<[f32; 2]> },
 }
 pub type Program = Vec<Step>;
 
@@ -544,6 +547,23 @@ pub fn run_net(ins: &[NIn; 3], bools: &[NIn; 2], clock: Option<i64>, limit: i64,
     }
 }
 
+pub fn run_pow(pairs: &[[f32; 2]], out: &mut Vec<String>) {
+    for (k, pr) in pairs.iter().enumerate() {
+        let base = NIn { cat: 3, t: k as i64, v: pr[0], b: false };
+        let expo = NIn { cat: 3, t: -(k as i64), v: pr[1], b: false };
+        match ExponentStream::new(scripted(&base, |i| i.v), scripted(&expo, |i| i.v)).get() {
+            Ok(Some(d)) => {
+                out.push(format!("@{}", d.time.0));
+                out.push(format!("pw{}", pfb(d.value)));
+                out.push(format!("py{}", fb(pr[1])));
+                out.push(format!("pb{}", fb(pr[0])));
+            }
+            Ok(None) => out.push("none".to_string()),
+            Err(e) => out.push(err_tok(e)),
+        }
+    }
+}
+
 // ---------------------------------------------------------------------------------------------
 // devices
 // ---------------------------------------------------------------------------------------------
@@ -640,6 +660,7 @@ pub fn run_step(step: &Step, out: &mut Vec<String>) {
         Step::Net { ins, bools, clock, limit, none_value } => run_net(ins, bools, *clock, *limit, *none_value, out),
         Step::Device { spec, linked, rounds } => run_device(spec, linked, rounds, out),
         Step::DatumOps { t1, t2, a, b } => run_datum(*t1, *t2, *a, *b, out),
+        Step::Pow { pairs } => run_pow(pairs, out),
     }
 }
 /// One token list per step; a step that panics yields the single token "PANIC".
